@@ -1,6 +1,7 @@
 (* Base.v — shared prelude of the trRouting model: numbers, total maps, list helpers.
    Model files import this; proofs live elsewhere so the model still runs when a proof breaks. *)
 From Coq Require Export List ZArith Bool Arith Lia.
+From TrV Require Export gen.Consts.
 Export ListNotations.
 Local Open Scope Z_scope.
 
